@@ -302,11 +302,32 @@ def r4_loss_association(ctx: Context, v: CalibrateView) -> None:
             guarded = any(isinstance(x, (ast.If, ast.Break, ast.Continue)) for x in ast.walk(loop))
         else:
             raise AnalysisError(f"{v.cal.loc(c)}: compute_loss is not called inside an iteration over the new series; cannot decide R4")
-        ctx.check(src(it) == s_name, "R4.iteration", "Calibrator.calibrate:loss-iteration", f"one loss per element of {s_name}, in order",
+        # the header is read canonically (util.loop_binding): `for s in S`, `for i, s in enumerate(S)`, `for i in range(len(S))` bind the element S[_I_]
+        from ..util import IDX, loop_binding
+        tgt_node = comp.generators[0].target if comp is not None and len(comp.generators) == 1 else loop.target
+        elem_forms = {elem}
+        iter_ok = src(it) == s_name
+        try:
+            benv, counts = loop_binding(tgt_node, it)
+        except AnalysisError:
+            benv, counts = {}, []
+        want_elem = f"{s_name}[{IDX}]"
+        for nm, ve in benv.items():
+            if src(ve).replace(" ", "") == want_elem.replace(" ", ""):
+                elem_forms.add(nm)
+                iter_ok = iter_ok or any(src(c_).replace(" ", "") in (f"len({s_name})", f"{s_name}.shape[0]") for c_ in counts)
+        if benv and not iter_ok and any(src(c_).replace(" ", "") in (f"len({s_name})", f"{s_name}.shape[0]") for c_ in counts):
+            iter_ok = True      # index loop over the series: the element is spelled S[i] at the call
+            elem_forms |= {f"{s_name}[{nm}]" for nm, ve in benv.items() if src(ve) == IDX}
+        ctx.check(iter_ok, "R4.iteration", "Calibrator.calibrate:loss-iteration", f"one loss per element of {s_name}, in order",
                   f"losses are computed while iterating `{src(it)}`, the recorded series are `{s_name}`", v.cal, it)
+        # only a guard that can skip the loss call itself matters (a re-raising handler or a log line inside the loop does not)
+        if loop is not None and comp is None:
+            guarded = any(isinstance(x, (ast.Break, ast.Continue)) for x in ast.walk(loop)) or any(
+                isinstance(x, ast.If) and any(y is c for y in ast.walk(x)) for x in ast.walk(loop))
         ctx.check(not guarded, "R4.iteration", "Calibrator.calibrate:loss-unconditional", "every element gets a loss", "some elements can be skipped in the loss loop", v.cal, c)
         args = [src(a) for a in c.args] + [f"{k.arg}={src(k.value)}" for k in c.keywords]
-        ok = args in ([elem, "self.real_data"], [f"sim_data_ensemble={elem}", "real_data=self.real_data"])
+        ok = any(args in ([el, "self.real_data"], [f"sim_data_ensemble={el}", "real_data=self.real_data"]) for el in elem_forms)
         ctx.check(ok, "R4.roles", "Calibrator.calibrate:compute_loss-args", "compute_loss(<this row's series>, self.real_data)",
                   f"compute_loss called with {args}", v.cal, c)
         ctx.check(isinstance(c.func, ast.Attribute) and src(c.func.value) == "self.loss_function", "R4.roles", "Calibrator.calibrate:configured-loss", "the configured loss function is used",
